@@ -867,8 +867,10 @@ class QMI_Context:
                     # Register the object manager under the claimed name.
                     self._rpc_object_map[rpc_object_name] = manager
 
-                # Register the object manager as message handler.
-                self.register_message_handler(manager)
+                    # Register the object manager as message handler, still under the lock: a stop() in
+                    # another thread either sees the name reserved (and leaves the object to us) or sees
+                    # a manager that is registered (and can unregister and stop it).
+                    self.register_message_handler(manager)
 
             finally:
                 if proxy is None:
